@@ -59,6 +59,9 @@ func main() {
 	case "launches":
 		launchesMain()
 		return
+	case "seq":
+		seqMain()
+		return
 	}
 	seed := flag.Uint64("seed", 1, "seed")
 	n := flag.Int("n", 100, "number of cases")
